@@ -859,8 +859,9 @@ void a_complex_acosh_(a_complex *ctx)
 #else /* !A_HAVE_CACOSH */
     a_real const imag = ctx->imag;
     a_complex_acos_(ctx);
-    /* the imaginary part of acos underflows to zero for arguments very close to the real axis: the side is then the argument's */
-    a_complex_mul_imag_(ctx, (ctx->imag > 0 || (ctx->imag == 0 && imag < 0)) ? -1 : +1);
+    /* the imaginary part of acos underflows to zero for arguments very close to the real axis: the side is then the argument's,
+       a negative zero (as left by an underflowing reciprocal) counting as below the axis */
+    a_complex_mul_imag_(ctx, (ctx->imag > 0 || (ctx->imag == 0 && signbit(imag))) ? -1 : +1);
 #endif /* A_HAVE_CACOSH */
 }
 
